@@ -6,8 +6,8 @@ from props import c01
 from gen_hc import Sim, Net, pick_cfg, pick_len, F
 
 PROP = "C11"
-LAKE_TARGETS = ["Uflow.Props.C11", "Uflow.Props.C11Sys", "Uflow.Props.C11Credit", "uflow_driver"]
-PROPS_FILES = ["C11", "C11Sys", "C11Credit"]
+LAKE_TARGETS = ["Uflow.Props.C11", "Uflow.Props.C11Sys", "Uflow.Props.C11Credit", "Uflow.Props.C11NoStall", "uflow_driver"]
+PROPS_FILES = ["C11", "C11Sys", "C11Credit", "C11NoStall"]
 TRUSTED_BASE = c01.TRUSTED_BASE
 ASSUMPTIONS = ["'permanently' is judged with a budget of 20000 virtual seconds of loss-free operation for the backlog left by the fault phase and 1500 s for a fresh 60 kB backlog "
                "(at the 23 B/s floor that backlog alone would take 2600 s): TFRC legitimately restarts from one frame per 64 s",
